@@ -1,4 +1,5 @@
-/-! Prototype: model of `Scanner::scan` (msp.rs 194-276) over abstract position scores. -/
+import Dbg.Gen.Consts
+/-! Model of `Scanner::scan` (msp.rs 194-276) over abstract position scores. -/
 namespace Msp
 
 structure MinPos where
@@ -33,5 +34,42 @@ def scanLoop (sc : Nat → Nat) (d : Nat) : List Nat → MinPos → List (Nat ×
 def minPositions (sc : Nat → Nat) (d n : Nat) : List (Nat × MinPos) :=
   let m0 := findMin sc 0 d
   scanLoop sc d (List.range' 1 (n - 1)) m0 [(0, m0)]
+
+end Msp
+
+/-! ## Interval synthesis (msp.rs 248-275) and the executable scan over a base sequence -/
+namespace Msp
+
+/-- `MspIntervalP` with the k-mer field spelled as bases -/
+structure Iv where
+  start : Nat
+  len : Nat
+  mpos : Nat
+  mini : List Nat
+deriving Repr, DecidableEq
+
+/-- the p-mer at position `q` (`get_kmer::<P>(q)`); bases are `Nat`s `< 4` -/
+def window (seq : Array Nat) (p q : Nat) : List Nat := (seq.extract q (q + p)).toList
+
+/-- Narrowing moduli of `start as u32`, `len as u16`, `minimizer_pos as u32`
+    (checked against the field types by the constant extractor). -/
+def startMod : Nat := 2 ^ Gen.mspStartBits
+def lenMod : Nat := 2 ^ Gen.mspLenBits
+
+/-- the two loops at msp.rs 248-275 over the forward `min_positions` vector -/
+def mkIntervals (seq : Array Nat) (k p m : Nat) : List (Nat × MinPos) → List Iv
+  | [] => []
+  | [(s, mn)] => [⟨s % startMod, (m - s) % lenMod, mn.pos % startMod, window seq p mn.pos⟩]
+  | (s, mn) :: (s', mn') :: rest =>
+    ⟨s % startMod, (s' + k - 1 - s) % lenMod, mn.pos % startMod, window seq p mn.pos⟩ ::
+      mkIntervals seq k p m ((s', mn') :: rest)
+
+/-- `Scanner::scan`; `none` = one of the two assertions fails, or `k < p` (usize underflow) -/
+def scan (seq : Array Nat) (score : List Nat → Nat) (k p : Nat) : Option (List Iv) :=
+  let m := seq.size
+  if k ≤ m ∧ m < 2 ^ Gen.mspMaxLenLog ∧ p ≤ k then
+    let sc := fun q => score (window seq p q)
+    some (mkIntervals seq k p m (minPositions sc (k - p) (m - k + 1)).reverse)
+  else none
 
 end Msp
